@@ -37,7 +37,7 @@ def run(tier: str) -> int:
     # bridging: two groups of two variables each, then a constraint that joins them, a re-split, a query
     ev_bridge = [("add", "x+y==3"), ("add", "u==z+1"), ("add", "y==z"), ("simplify",), ("max", "x+z", "u", "none"), ("eval", "u", 9, "none")]
     # an unsatisfiable child that the query (with extra constraints on other variables) does not touch
-    ev_unsatchild = [("add", "x==1"), ("add", "x==2"), ("add", "z!=0"), ("eval", "u", 1, "none"), ("beval", "y,u", 9, "u==3"), ("eval", "z", 9, "none"), ("max", "y", "u", "z==y+1"), ("sat", "none"), ("sat", "z==y+1"), ("sol", "z", 0, "x==2")]
+    ev_unsatchild = [("add", "x<u1"), ("add", "x>u2"), ("add", "z!=0"), ("eval", "u", 1, "none"), ("beval", "y,u", 9, "u==3"), ("eval", "z", 9, "none"), ("max", "y", "u", "z==y+1"), ("sat", "none"), ("sat", "z==y+1"), ("sol", "z", 0, "x==2")]
     if tier == "quick":
         plan = [("SolverComposite", {}, ev_unsatchild, 4, 3, "unsatchild4"), ("SolverComposite", {}, ev_q, 3, 2, ""), ("SolverComposite", {}, ev_small_q, 4, 3, "small4"), ("SolverComposite", {}, ev_bridge, 5, 3, "bridge5")]
     else:
